@@ -39,6 +39,9 @@ def inline(v, t, params=None, subst=False):
             return [k, inline(v, t[1], params, True), t[2]]
         if k == "map":
             return ["map", inline(v, t[1], params, True), inline(v, t[2], params, True)]
+    if k == "ref" and v.defs.get(t[1], [None])[0] == "alias":
+        # a named alias (directed versions only): on the wire, and for change detection, it is its target
+        return inline(v, v.defs[t[1]][1], params, subst)
     if k == "ref":
         if subst:
             d = v.defs[t[1]]
@@ -69,7 +72,7 @@ def inline(v, t, params=None, subst=False):
 
 def defs_json(v):
     """the definitions of a version for the model's environment: records, enums and the open generic records"""
-    out = [inline(v, ["ref", nm]) for nm in v.order if nm not in v.instances]
+    out = [inline(v, ["ref", nm]) for nm in v.order if nm not in v.instances and v.defs[nm][0] != "alias"]
     for gname in sorted(v.generics):
         p, fields = v.generics[gname]
         out.append(["inst", gname, [], [[n, inline(v, ft, [p])] for n, ft in fields]])
@@ -655,6 +658,10 @@ def model_yaml(v, proto_name="P"):
         if name in v.instances:
             continue
         d = v.defs[name]
+        if d[0] == "alias":
+            out.append(f"{name}: {ty_yaml(d[1])}")
+            out.append("")
+            continue
         if d[0] == "enum":
             out.append(f"{name}: " + ("!flags" if d[2] else "!enum"))
             if d[1]:
